@@ -137,6 +137,9 @@ class Store:
                 cur[1] = hi
         if info is not None:
             self.info[sym] = info
+        b = self.iv[sym]
+        if b[0] is not None and b[0] == b[1] and sym not in self.sub:
+            self.sub[sym] = Lin.const(b[0])
         return Lin.sym(sym)
 
     def canon(self, lin):
